@@ -166,6 +166,8 @@ prop("C05", "The local cache returns exactly the bytes written, at the offsets w
      "After EVERY step every byte every reader has returned so far is compared with the byte function, live readers must have delivered exactly the bytes written so far (bounded wait 10 s => inconclusive), invalidated readers may end but must not deliver other bytes; IsValidOffset => NewReader succeeds; a log reader is never handed out outside the cached range; a snapshot reader only while a complete snapshot is cached and with its geometry; GetOffsetRange never claims bytes that were collected; delete invalidates. "
      "Readers may be slow consumers (they take 64 bytes and go on only at a later 'begin' step; the cache's own reader then sits blocked on its pipe, still holding its references); one snapshot in twelve is larger than the 2 MiB a reader buffers ahead, followed by a scripted history (appends, slow snapshot reader, appends, collector pass); "
      "cache resets (new run, id switch, delete) are issued with the readers closed first (the input's own reader) or, one time in three, with readers still open (readers that serve followers) - the reset then has 20 s to return (a watchdog expiry there is reported as cache-reset-never-returns, both defects of this kind were deterministic lock cycles). "
+     "Readers of the index that is being reset must then END OR FAIL: the reset closes them synchronously, so one that is still open and silent 10 s later, while the others of the same reset ended at once, was forgotten (if none ended the case is inconclusive, not a verdict); readers orphaned by an earlier replication-id switch (SetRunId builds a new index and never closes the old one) are not judged. "
+     "A snapshot transfer may break in the middle (the writer is fed half of the announced size), followed by the next round's start-point query (and optionally a re-selection of the same id): the incomplete snapshot must not be offered (GetRdb, IsValidOffset, NewReader). "
      "After every step a probe asks for both ends, their neighbours and the middle of the reported range: where IsValidOffset says yes a FRESH reader must open and deliver the right bytes. "
      "non-trivial (measured) = distinct case in which a live reader consumed more than one segment (crossed a rotation) AND a collector pass removed a segment."
      " Second unit (concurrent): backend x segment size 64..4096 x size limit (none | 6 | 20 segments; on disk a collector pass runs every millisecond meanwhile) x a source that feeds the log writer continuously in generated chunk sizes (1..5000 bytes, never waiting for the cache) x 1-6 writer replacements (the writer is closed WHILE it is appending and a new one is attached at the right end the cache then reports, as the input does on every reconnection) and 0-4 readers opened at valid offsets, both triggered when the cache has grown by generated amounts. While running every reader's bytes are compared with the byte function; after the stop, on the quiescent cache (nothing running, so no timing enters the verdict), fresh readers at the left end, the right end, the middle and around up to six segment boundaries must deliver exactly the bytes up to the reported right end.",
